@@ -15,7 +15,9 @@ from datetime import timedelta
 from pydantic import BaseModel, Field
 
 from rv import core
-from rv.faults import EXC_CLASSES, make_exception
+from rv.faults import EXC_CLASSES, enable_unprintable, make_exception
+
+enable_unprintable()      # "whatever the user code raises" includes exceptions that cannot be turned into text
 
 MARKERS = ["SUCCESS", "SOLVED", "COMPLETE", "DONE", "FINISHED"]
 HARD_CAP = 60
